@@ -407,6 +407,10 @@ def plan(tier, seed):
                 {'family': 'ec', 'batches': heavy, 'skip': []}, mem_heavy=True,
                 bound='session with two keys on one curve: the 2^24 table is built by the '
                 'difference check and then shared with the private-key search', weight=1e10))
+  T.append(Task('joint-permutations', 'joint',
+                {'family': 'ec', 'check': 'CheckECKeySmallDifference', 'healthy': 'healthy-224',
+                 'batches': [['healthy-256', 'near-256'], ['healthy-256', 'near-256', 'unknown']]},
+                mem_heavy=True, bound='', weight=1e10))
   # ECDSA
   sig_alpha = ['healthy', 'biased1', 'biased2', 'biased3', 'sameissuer', 'weakissuer']
   sbs = [['biased1', 'biased2', 'biased3'], ['healthy'], ['biased3', 'healthy', 'biased1',
